@@ -80,6 +80,56 @@ void harness(void) {
     VP_ASSERT("P:add.wf", bm_wf(vb));
     VP_ASSERT("P:add.value", bm_abs(vb) == S);
     bm_observe(vb, S, x, OBS);
+#elif OP == 20 || OP == 21 || OP == 22
+    /* C18: the k-th allocation of ONE operation fails (k symbolic, 0 = none); afterwards - failures off - the object must be
+     * well-formed, hold the right set, and be usable: one more Add and Remove behave as on a set, and any write through a stale
+     * capacity or pointer is a memory error under the exact-size allocator */
+    VP_IN(uint32_t, failat);
+    VP_ASSUME(failat <= 3);
+    const unsigned live1 = vp_live;
+    vp_alloc_calls = 0;
+    vp_alloc_failed = 0;
+    vp_fail_at = failat;
+#if OP == 20
+    bool r = varintBitmapAdd(vb, a);
+    vp_fail_at = 0;
+    if (r) {
+        VP_ASSERT("P:oomb.add_true_means_added", !((S >> a) & 1));
+        S |= BIT(a);
+    } else if (!((S >> a) & 1)) {
+        VP_ASSERT("P:oomb.failure_only_if_alloc_failed", vp_alloc_failed);
+    }
+#elif OP == 21
+    bool r = varintBitmapRemove(vb, a);
+    vp_fail_at = 0;
+    if (r) {
+        VP_ASSERT("P:oomb.remove_true_means_removed", (S >> a) & 1);
+        S &= ~BIT(a);
+    } else if ((S >> a) & 1) {
+        VP_ASSERT("P:oomb.failure_only_if_alloc_failed", vp_alloc_failed);
+    }
+#else
+    varintBitmap *c = varintBitmapClone(vb);
+    vp_fail_at = 0;
+    if (!c) {
+        VP_ASSERT("P:oomb.failure_only_if_alloc_failed", vp_alloc_failed);
+        VP_ASSERT("P:oomb.failed_clone_no_leak", vp_live == live1);
+    } else {
+        VP_ASSERT("P:oomb.clone_value", bm_wf(c) && bm_abs(c) == S);
+        varintBitmapFree(c);
+        VP_ASSERT("P:oomb.clone_freed", vp_live == live1);
+    }
+#endif
+    VP_ASSERT("P:oomb.calls_bounded", vp_alloc_calls <= 3);
+    VP_ASSERT("P:oomb.consistent_after_failure", bm_wf(vb) && bm_abs(vb) == S);
+    bool r2 = varintBitmapAdd(vb, x);
+    VP_ASSERT("P:oomb.usable_afterwards.add", r2 == !((S >> x) & 1));
+    S |= BIT(x);
+    VP_ASSERT("P:oomb.usable_afterwards.add_value", bm_wf(vb) && bm_abs(vb) == S);
+    bool r3 = varintBitmapRemove(vb, a);
+    VP_ASSERT("P:oomb.usable_afterwards.remove", r3 == (bool)((S >> a) & 1));
+    S &= ~BIT(a);
+    VP_ASSERT("P:oomb.usable_afterwards.remove_value", bm_wf(vb) && bm_abs(vb) == S);
 #elif OP == 2
     bool r = varintBitmapRemove(vb, a);
     VP_ASSERT("P:remove.truthful", r == (bool)((S >> a) & 1));
